@@ -372,6 +372,7 @@ EMITTER_SITES = {
 HELPER_EMITTERS = {"send_message", "send_tools_call", "send_cancelled_notification", "send_progress_notification"}
 PAYLOADS = [None, {}, {"a": 1}, {"nil": None}, {"l": [None, 1, {"x": None}]}, {"deep": {"d": {"e": [None]}}, "big": 2**63 + 1, "f": 1.5, "neg0": -0.0},
             {"s": "line\nbreak \r  \U0001F600 \x00", "": "empty key", "ключ": "é"}, {"_meta": {"progressToken": "p"}, "cursor": "c"}, {"e": [], "o": {}},
+            {"huge": 2**64, "huger": 10**30, "negHuge": -(2**63) - 1, "l": [2**64 + 1, {"d": -(10**25)}]},
             {"sep": "ls\u2028 ps\u2029 nel\u0085 del\x7f c1\x9f vt\x0b ff\x0c", "k\u2028\u0085": ["\u2029"]}]
 IDVALS = [0, 1, -1, 2**63, 2**64 - 1, "", "abc", "123", "007", "uuid-1234"]
 
@@ -436,7 +437,7 @@ def emit_recs(cases, out, fb, cov):
 def check_c02(ctx):
     quick = ctx.tier == "quick"
     ctx.cov["rule"] = ("cases = (emitter, id, payload, back end, serialised form): the 13 message constructors (typed classes, create_* helpers, legacy class methods) x 10 ids (0, negative, 2^63, 2^64-1, empty/digit/text strings) "
-                       "x 10 payload shapes (absent, empty, nested nulls, large ints, floats, control/line-separator/astral characters in values and keys, non-ASCII keys, _meta) x {model_dump(exclude_none), model_dump_json}, each parsed back with parse_message; "
+                       "x 11 payload shapes (incl. integers beyond 64 bits) (absent, empty, nested nulls, large ints, floats, control/line-separator/astral characters in values and keys, non-ASCII keys, _meta) x {model_dump(exclude_none), model_dump_json}, each parsed back with parse_message; "
                        "plus the emitters exercised by the other checks (typed request helpers in C01/C07, server handler in C08, transports' synthesised messages in C11/C12); distinct_nontrivial = distinct cases")
     ctx.assumptions += ["result payload null is replaced by {} by the create_* helpers; a typed JSONRPCResponse built directly with result=None is outside 'messages the library constructs'",
                         "id value and JSON type, and payload equality, are compared by the harness as tagged trees"]
